@@ -37,6 +37,10 @@ structure Sem (V E : Type) where
   mkDict : List (Option V × V) → Except E V
   mkSlice : Option V → Option V → Option V → V
   iter : V → Except E (List V)
+  /-- `iter(v)` as far as it is done when a generator expression is CREATED (CPython calls `iter()` on the first
+      iterable at once: a non-iterable raises TypeError there; the items are produced when the generator is consumed)
+      and when a `*v` element / argument is reached (before the following elements are evaluated) -/
+  getIter : V → Except E V := fun v => .ok v
   /-- unpack a value against an assignment target: the names it binds with their values -/
   bindTarget : PyExpr → V → Except E (List (Str × V))
   /-- a function object: parameters (name, default value) by kind, and its body as a function of
@@ -125,8 +129,9 @@ def eval : PyExpr → Env V → Except E V
       match gens with
       | .comp t it ifs _ :: rest => do
           let itV ← eval it env
+          let itr ← σ.getIter itV
           .ok (σ.mkGen (do
-            let items ← σ.iter itV
+            let items ← σ.iter itr
             runFrom t ifs rest items (declare (compNames gens) env) elt))
       | _ => .error (σ.unbound [])
   | .yield_ v, env => do
@@ -201,6 +206,8 @@ def evalArgs : List PyExpr → Env V → Except E (List (Bool × V))
   | [], _ => .ok []
   | .starred e :: rest, env => do
       let x ← eval e env
+      -- (`*e` is unpacked before the next element / argument is evaluated: a non-iterable raises here)
+      let x ← σ.getIter x
       let xs ← evalArgs rest env
       .ok ((true, x) :: xs)
   | e :: rest, env => do
